@@ -19,7 +19,7 @@ ASSUME = ["the oracle is trivial (the worker recovered a panic / the process die
 TOK = {"comma": ",", "colon": ":", "lbracket": "[", "rbracket": "]", "plus": "+", "minus": "-", "star": "*", "slash": "/", "lparen": "(", "rparen": ")",
        "quote": '"', "squote": "'", "bignum": "99999999999999999999999999", "hexjunk": "0xZZ", "ident": "foo_bar", "reg": "EAX", "opcode": "MOV",
        "EQU": "EQU", "GLOBAL": "GLOBAL", "BYTE": "BYTE", "dollar": "$", "lbrace": "{{.x}}", "nul": "\x00", "tab": "\t", "cr": "\r", "semicolon": ";",
-       "hash": "#", "dot": ".", "backslash": "\\", "utf8": "\u3042"}
+       "hash": "#", "dot": ".", "backslash": "\\", "utf8": "\u3042", "emptystr": '""', "emptychr": "''", "blankstr": '" "', "segoff": "8:"}
 
 TOKRE = re.compile(r'"[^"\n]*"|\'[^\'\n]*\'|[A-Za-z_.$][A-Za-z0-9_.$]*|0[xX][0-9a-fA-F]+|[0-9]+|\n|[ \t]+|.', re.S)
 
@@ -80,9 +80,9 @@ def run(ctx):
         meta[i] = (kind, src if hexsrc is None else "hex:" + hexsrc[:200])
     # (a) the statement matrix
     mns = matrix.mnemonics()
-    sh = {p: matrix.shapes(ctx, p) for p in ("n0", "n1", "n2", "n3")}
+    sh = {p: matrix.shapes(ctx, p) for p in ("n0", "n1", "n2", "n3", "far")}
     for mn in mns:
-        pool = sh["n0"] + sh["n1"] + (rng.sample(sh["n2"], 12) if quick else sh["n2"]) + (rng.sample(sh["n3"], 4) if quick else sh["n3"])
+        pool = sh["n0"] + sh["n1"] + sh["far"] + (rng.sample(sh["n2"], 12) if quick else sh["n2"]) + (rng.sample(sh["n3"], 4) if quick else sh["n3"])
         for s in pool:
             st = matrix.statement(mn, s, rng.randrange(2))
             add(render.program(matrix.program(st, bits=rng.choice([16, 32]))), "matrix")
@@ -131,19 +131,23 @@ def run(ctx):
     # (d) scale series through the worker: statements, nesting depth, long sums
     series = {}
     def timed(src):
-        r = ctx.run_jobs([{"id": 1, "src": src, "notrace": True, "maxout": 1}], sequential=True, per_job_timeout=600.0)[1][-1]
+        r = ctx.run_jobs([{"id": 1, "src": src, "notrace": True, "maxout": 1}], sequential=True, per_job_timeout=90.0)[1][-1]
         return r.get("us", 0) / 1e6, r.get("status")
     sizes = [250, 1000, 4000] if quick else [500, 2000, 8000, 32000]
     for name, mk in (("statements", lambda n: "\tMOV\tAX, 1\n" * n),
                      ("nesting", lambda n: "\tDD\t" + "(" * n + "1" + ")" * n + "\n"),
                      ("sum", lambda n: "\tDD\t" + "+".join(["1"] * n) + "\n"),
                      ("labels", lambda n: "".join("l%d:\n\tJMP\tl%d\n" % (i, i) for i in range(n))),
-                     ("dblist", lambda n: "\tDB\t" + ", ".join(str(i % 256) for i in range(n)) + "\n")):
+                     ("dblist", lambda n: "\tDB\t" + ", ".join(str(i % 256) for i in range(n)) + "\n"),
+                     # nested products / sums around a leaf that cannot be folded (label, register, 1/0): n/50 levels
+                     ("horner_label", lambda n: "lbl:\n\tMOV\tAX, " + "(" * (n // 50) + "lbl" + ")*2+1" * (n // 50) + "\n"),
+                     ("nested_mul_reg", lambda n: "\tMOV\tAX, [" + "2*(" * (n // 50) + "BX" + ")" * (n // 50) + "]\n"),
+                     ("horner_div0", lambda n: "\tDD\t" + "(" * (n // 50) + "1/0" + ")*2+1" * (n // 50) + "\n")):
         ts = []
         for n in sizes:
             t, st = timed(mk(n))
             ts.append((n, round(t, 3), st))
-            if st not in ("ok", "parse"):
+            if st not in ("ok", "parse") and not (st == "exit" and ts[-1][1] < 60):
                 viol.append({"id": 0, "tags": ["C13"], "why": "abnormal termination in scale series %s n=%d: %s" % (name, n, st), "at": "scale", "i": 0, "obs": [], "bits": 0, "kind": "scale", "src": name})
         series[name] = ts
         for (n1, t1, _), (n2, t2, _) in zip(ts, ts[1:]):
@@ -158,7 +162,7 @@ def run(ctx):
            "outcomes": outcomes, "wall_s_running_inputs": round(t_run, 1), "scale_series_seconds": series,
            "inputs_by_kind": {k: sum(1 for m in meta.values() if m[0] == k) for k in ("matrix", "mutation", "mutation2", "bytes")},
            "states": sum(s["distinct"] for s in ctx.tlc_stats), "transitions": sum(s["generated"] for s in ctx.tlc_stats),
-           "rule": "(a) every mnemonic of the grammar x operand-list shapes from Gen_Matrix.tla (0..3 operands of 16 kinds%s); (b) token-level mutations from Gen_Mut.tla (delete/insert/replace/duplicate/swap tokens, duplicate/delete lines, x %d positions x 30 replacement tokens incl. NUL, CR, braces, 26-digit numbers) applied to %d seed programs%s; "
+           "rule": "(a) every mnemonic of the grammar x operand-list shapes from Gen_Matrix.tla (0..3 operands of 16 kinds%s); (b) token-level mutations from Gen_Mut.tla (delete/insert/replace/duplicate/swap tokens, duplicate/delete lines, x %d positions x 34 replacement tokens incl. NUL, CR, braces, 26-digit numbers, empty strings) applied to %d seed programs%s; "
                    "(c) seeded random byte strings and mixtures of valid fragments and bytes; (d) scale series (statements, nesting depth, term count, labels, DB list) at n = %s; distinct = distinct input texts; all are non-trivial in the sense that each is a different input" % (
                        ", seeded sample of the 2/3-operand shapes" if quick else "", grain, len(seeds), "" if not quick else " (seeded sample of 500 per seed)", sizes),
            "samples": [meta[i][1][:200] for i in (1, len(jobs) // 2, len(jobs))], "exhaustive": False}
